@@ -3,6 +3,7 @@ import PkLA.SpectralRadius
 import PkLA.Lmi
 import Pk.FitLoop
 import Mathlib.Tactic.Abel
+import Mathlib.Analysis.SpecialFunctions.Trigonometric.Basic
 /-! # C10 — H-infinity regularised fits report a valid bound on the true gain
 
 Over `Matrix _ _ ℝ`.  The 4×4-block LMI of `LmiEdmdHinfReg` / `LmiDmdcHinfReg` implies, for the identified
@@ -128,6 +129,11 @@ theorem C10_series_pre (Am : Matrix a a ℝ) (Bm : Matrix a c ℝ) (Cm : Matrix 
   · simp only [preC, preD, fromCols_mulVec, mulVec_add, mulVec_mulVec, Sum.elim_comp_inl, Sum.elim_comp_inr]
     abel
 end series
+
+/-- units of the zero / pole lists of `LmiHinfZpkMeta`: `'hz'` multiplies by `2π`; `'normalized'` multiplies by the Nyquist
+frequency in rad/s, `2π · ((1/t_step)/2) = π / t_step` -/
+theorem C10_units (tStep : ℝ) (ht : tStep ≠ 0) : 2 * Real.pi * ((1 / tStep) / 2) = Real.pi / tStep := by
+  field_simp
 
 /-- `P` of a feasible LMI is positive definite, hence invertible: the two side conditions above are consequences
 of the LMI itself -/
